@@ -26,12 +26,13 @@ sub h_b(BOOL var.p) { set var.p = false; }
 sub h_r(RTIME var.p) { set var.p += 1s; }
 sub h_t(TIME var.p) { set var.p += 1s; }
 sub h_ip(IP var.p) { set var.p = "198.51.100.1"; }
-sub f_i(INTEGER var.p) INTEGER { set var.p += 1; return var.p; }
+sub f_i(INTEGER var.p) INTEGER { if (req.url ~ "^/(can)(ary)") { set var.p += 1; } return var.p; }
 sub f_f(FLOAT var.p) FLOAT { set var.p += 0.5; return var.p; }
-sub f_s(STRING var.p) STRING { set var.p = var.p "X"; return var.p; }
-sub f_b(BOOL var.p) BOOL { set var.p = true; return var.p; }
+sub f_s(STRING var.p) STRING { set var.p = var.p "X"; if (var.p ~ "(X)$") { set var.p = var.p re.group.1; } return var.p; }
+sub f_b(BOOL var.p) BOOL { if (req.method ~ "^(G)(ET)$") { set var.p = true; } return var.p; }
 sub f_r(RTIME var.p) RTIME { set var.p += 1s; return var.p; }
-sub f_t(TIME var.p) TIME { set var.p += 1s; return var.p; }
+sub f_t(TIME var.p) TIME { if (req.url ~ "(x)=(1)") { set var.p += 1s; } return var.p; }
+sub h_x(REGEX var.p) { set var.p = "^never"; }
 `
 
 type atype struct {
@@ -92,6 +93,11 @@ func aliasProgram(r *rand.Rand, n int) (string, []astmt, []string) {
 	}
 	sb.WriteString("declare local var.u STRING;\ndeclare local var.u2 STRING;\n")
 	pool = append(pool, "var.u", "var.u2")
+	// REGEX locals (their initial value is a constant of the value package)
+	for _, x := range "abc" {
+		pool = append(pool, fmt.Sprintf("var.x_%c", x))
+		fmt.Fprintf(&sb, "declare local var.x_%c REGEX;\n", x)
+	}
 	for _, h := range aliasHeaders {
 		pool = append(pool, "req.http."+h)
 	}
@@ -107,14 +113,31 @@ func aliasProgram(r *rand.Rand, n int) (string, []astmt, []string) {
 			add("init/"+t.vcl, fmt.Sprintf("set %s = %s;", name, t.inits[k]), one(name), false)
 		}
 	}
+	// a fourth local of every type, declared WITH an initial value read from another local
+	dset := map[string]bool{}
+	for _, t := range atypes {
+		name := fmt.Sprintf("var.%s_d", t.tag)
+		pool = append(pool, name)
+		add("declare-init/"+t.vcl, fmt.Sprintf("declare local %s %s = var.%s_%c;", name, t.vcl, t.tag, "abc"[r.Intn(3)]), one(name), false)
+		dset[t.tag] = true
+	}
 	add("init/header", `set req.http.X-Foo = "k=1, k2=2";`, hdrAllowed("X-Foo"), false)
 	add("init/header", `set req.http.X-Foo-Bar = "bar";`, hdrAllowed("X-Foo-Bar"), false)
 	add("init/header", `set req.http.X-Other = "other";`, hdrAllowed("X-Other"), false)
-	v := func(t atype) string { return fmt.Sprintf("var.%s_%c", t.tag, "abc"[r.Intn(3)]) }
+	v := func(t atype) string { return fmt.Sprintf("var.%s_%c", t.tag, "abcd"[r.Intn(4)]) }
 	for len(stmts) < n+24 {
 		t := atypes[r.Intn(len(atypes))]
 		x, y := v(t), v(t)
-		switch k := r.Intn(16); {
+		switch k := r.Intn(18); {
+		case k == 16:
+			xr := fmt.Sprintf("var.x_%c", "abc"[r.Intn(3)])
+			if r.Intn(3) == 0 {
+				add("call/REGEX", fmt.Sprintf("call h_x(%s);", xr), map[string]bool{}, false)
+			} else {
+				add("regex-local-set", fmt.Sprintf("set %s = \"%s\";", xr, []string{"^/can", "(x)=(1)", "ary"}[r.Intn(3)]), one(xr), false)
+			}
+		case k == 17:
+			add("regex-local-match", fmt.Sprintf("if (req.url ~ var.x_%c) { }", "abc"[r.Intn(3)]), map[string]bool{}, true)
 		case k == 0 || k == 1:
 			add("copy/"+t.vcl, fmt.Sprintf("set %s = %s;", x, y), one(x), false)
 		case k == 2 && len(t.ops) > 0:
@@ -226,6 +249,11 @@ func runAlias(oc *fw.Outcome, cc ccase) {
 		if res.Err != nil {
 			// a statement the interpreter refuses is not a frame violation; what ran before it is still checked
 			oc.Tag("alias:runtime-error-after-" + stmts[min(len(seq), len(stmts))-1].kind)
+			em := res.Err.Error()
+			if i := strings.Index(em, " at line"); i > 0 {
+				em = em[:i]
+			}
+			oc.Tag("alias:runtime-error: " + clip(em, 90))
 		}
 		checked := 0
 		for k := 0; k+1 < len(seq); k++ {
